@@ -20,6 +20,7 @@ package omap
 //@   role cf ord
 //@   ensures [C04] inv: result.m != nil && fresh(result.m) && mapInv(result)
 //@   ensures [C04] empty: card(result.m.elems) == 0
+//@   at return 1: assert [C04] forall a stree.KV[T, U], b stree.KV[T, U] :: {rank(result.m.compare, a), rank(result.m.compare, b)} a.Key == b.Key ==> ord(result.m.compare, a, b) == 0
 //@
 //@ func (Map).Len
 //@   requires [C04] mapInv(m)
